@@ -11,6 +11,7 @@ import (
 
 	"github.com/unixpickle/model3d/model2d"
 	"github.com/unixpickle/model3d/model3d"
+	"github.com/unixpickle/model3d/numerical"
 
 	"vshim/vmap"
 	"vshim/vsched"
@@ -211,6 +212,18 @@ func discMeshes() map[string]*model3d.Mesh {
 		}
 	}
 	out["grid3x3"] = grid
+	// the opposite of generic: a flat regular grid, unchanged by a half turn about its centre (connectivity, weights
+	// and every boundary map are then point-symmetric, and so are the residuals of the linear system: their signed
+	// sum vanishes from the first iteration on)
+	sym := model3d.NewMesh()
+	g := func(i, j int) model3d.Coord3D { return p(float64(i-3), float64(j-3), 0) }
+	for i := 0; i < 6; i++ {
+		for j := 0; j < 6; j++ {
+			sym.Add(&model3d.Triangle{g(i, j), g(i+1, j), g(i+1, j+1)})
+			sym.Add(&model3d.Triangle{g(i, j), g(i+1, j+1), g(i, j+1)})
+		}
+	}
+	out["sym-grid6x6"] = sym
 	strip := model3d.NewMesh()
 	for i := 0; i < 5; i++ {
 		a, b := p(float64(i), 0, 0.1*float64(i*i)), p(float64(i)+0.4, 1, 0.2*float64(i))
@@ -236,7 +249,7 @@ func discMeshes() map[string]*model3d.Mesh {
 // meant to have (a fan that does not close exactly has none). Checked once at start-up; a mismatch is a
 // harness error, not a verdict about the library.
 func init() {
-	want := map[string][2]int{"fan7": {8, 1}, "grid3x3": {16, 4}, "strip5": {12, 0}, "single-triangle": {3, 0}, "stellated-strip3": {14, 6}}
+	want := map[string][2]int{"fan7": {8, 1}, "grid3x3": {16, 4}, "sym-grid6x6": {49, 25}, "strip5": {12, 0}, "single-triangle": {3, 0}, "stellated-strip3": {14, 6}}
 	for name, m := range discMeshes() {
 		w, ok := want[name]
 		if !ok {
@@ -450,119 +463,134 @@ func init() {
 			bi, bname := bi, bname
 			for wi, wname := range []string{"uniform", "inverse-chord", "shape-preserving"} {
 				wi, wname := wi, wname
-				register(scenario{name: fmt.Sprintf("floater:%s/%s/%s", bname, wname, dn), procs: 1, prop: "C18", about: "Floater parameterisation over a convex boundary",
-					want: func() string { return "ok" },
-					body: func() string {
-						m := discMeshes()[dn]
-						var boundary *model3d.CoordMap[model2d.Coord]
-						switch bi {
-						case 0:
-							boundary = model3d.CircleBoundary(m)
-						case 1:
-							boundary = model3d.SquareBoundary(m)
-						default:
-							boundary = model3d.PNormBoundary(m, pnormOf(bname))
-						}
-						var w *model3d.EdgeMap[float64]
-						switch wi {
-						case 0:
-							w = model3d.Floater97UniformWeights(m)
-						case 1:
-							w = model3d.Floater97InvChordLengthWeights(m, 1)
-						default:
-							w = model3d.Floater97ShapePreservingWeights(m)
-						}
-						// boundary on the convex curve
-						bad := ""
-						boundary.Range(func(k model3d.Coord3D, v model2d.Coord) bool {
-							var r float64
+				for si, sname := range []string{"", "/solver=default", "/solver=mae1e-11", "/solver=mse1e-22"} {
+					si, sname := si, sname
+					if si > 0 && bi > 1 {
+						continue // explicit solvers on the circle and the square only
+					}
+					register(scenario{name: fmt.Sprintf("floater:%s/%s/%s%s", bname, wname, dn, sname), procs: 1, prop: "C18", about: "Floater parameterisation over a convex boundary",
+						want: func() string { return "ok" },
+						body: func() string {
+							m := discMeshes()[dn]
+							var boundary *model3d.CoordMap[model2d.Coord]
 							switch bi {
 							case 0:
-								r = v.Norm()
+								boundary = model3d.CircleBoundary(m)
 							case 1:
-								r = math.Max(math.Abs(v.X), math.Abs(v.Y))
+								boundary = model3d.SquareBoundary(m)
 							default:
-								pe := pnormOf(bname)
-								r = math.Pow(math.Pow(math.Abs(v.X), pe)+math.Pow(math.Abs(v.Y), pe), 1/pe)
+								boundary = model3d.PNormBoundary(m, pnormOf(bname))
 							}
-							if !(math.Abs(r-1) <= 1e-9) {
-								bad = fmt.Sprintf("boundary vertex %v is mapped to %v, which is not on the unit %s", k, v, bname)
-								return false
+							var w *model3d.EdgeMap[float64]
+							switch wi {
+							case 0:
+								w = model3d.Floater97UniformWeights(m)
+							case 1:
+								w = model3d.Floater97InvChordLengthWeights(m, 1)
+							default:
+								w = model3d.Floater97ShapePreservingWeights(m)
 							}
-							return true
-						})
-						if bad != "" {
-							return "VIOLATION boundary: " + bad
-						}
-						uv := model3d.Floater97(m, boundary, w, nil)
-						// interior vertices: weighted mean of neighbours under the returned weights
-						nbs := m.AllVertexNeighbors()
-						res := ""
-						nbs.Range(func(c model3d.Coord3D, ns []model3d.Coord3D) bool {
-							if _, isB := boundary.Load(c); isB {
-								got, _ := uv.Load(c)
-								want, _ := boundary.Load(c)
-								if got != want {
-									res = fmt.Sprintf("VIOLATION boundary: boundary vertex %v moved from %v to %v", c, want, got)
+							// boundary on the convex curve
+							bad := ""
+							boundary.Range(func(k model3d.Coord3D, v model2d.Coord) bool {
+								var r float64
+								switch bi {
+								case 0:
+									r = v.Norm()
+								case 1:
+									r = math.Max(math.Abs(v.X), math.Abs(v.Y))
+								default:
+									pe := pnormOf(bname)
+									r = math.Pow(math.Pow(math.Abs(v.X), pe)+math.Pow(math.Abs(v.Y), pe), 1/pe)
+								}
+								if !(math.Abs(r-1) <= 1e-9) {
+									bad = fmt.Sprintf("boundary vertex %v is mapped to %v, which is not on the unit %s", k, v, bname)
 									return false
 								}
 								return true
+							})
+							if bad != "" {
+								return "VIOLATION boundary: " + bad
 							}
-							var sum model2d.Coord
-							tot := 0.0
-							for _, n := range ns {
-								wt, ok := w.Load([2]model3d.Coord3D{c, n})
-								if !ok || wt <= 0 {
-									res = fmt.Sprintf("VIOLATION weights: weight of edge %v -> %v is %v (present=%v), not positive", c, n, wt, ok)
+							var solver numerical.LargeLinearSolver
+							switch si {
+							case 1:
+								solver = model3d.Floater97DefaultSolver()
+							case 2:
+								solver = &numerical.BiCGSTABSolver{MaxIters: 5000, MAETolerance: 1e-11}
+							case 3:
+								solver = &numerical.BiCGSTABSolver{MaxIters: 5000, MSETolerance: 1e-22}
+							}
+							uv := model3d.Floater97(m, boundary, w, solver)
+							// interior vertices: weighted mean of neighbours under the returned weights
+							nbs := m.AllVertexNeighbors()
+							res := ""
+							nbs.Range(func(c model3d.Coord3D, ns []model3d.Coord3D) bool {
+								if _, isB := boundary.Load(c); isB {
+									got, _ := uv.Load(c)
+									want, _ := boundary.Load(c)
+									if got != want {
+										res = fmt.Sprintf("VIOLATION boundary: boundary vertex %v moved from %v to %v", c, want, got)
+										return false
+									}
+									return true
+								}
+								var sum model2d.Coord
+								tot := 0.0
+								for _, n := range ns {
+									wt, ok := w.Load([2]model3d.Coord3D{c, n})
+									if !ok || wt <= 0 {
+										res = fmt.Sprintf("VIOLATION weights: weight of edge %v -> %v is %v (present=%v), not positive", c, n, wt, ok)
+										return false
+									}
+									p, _ := uv.Load(n)
+									sum = sum.Add(p.Scale(wt))
+									tot += wt
+								}
+								if !(math.Abs(tot-1) <= 1e-9) {
+									res = fmt.Sprintf("VIOLATION weights: weights around %v sum to %v", c, tot)
 									return false
 								}
-								p, _ := uv.Load(n)
-								sum = sum.Add(p.Scale(wt))
-								tot += wt
-							}
-							if !(math.Abs(tot-1) <= 1e-9) {
-								res = fmt.Sprintf("VIOLATION weights: weights around %v sum to %v", c, tot)
-								return false
-							}
-							got, _ := uv.Load(c)
-							if !(got.Dist(sum) <= 1e-5) {
-								res = fmt.Sprintf("VIOLATION mean: interior vertex %v is at %v, the weighted mean of its neighbours is %v", c, got, sum)
-								return false
-							}
-							return true
-						})
-						if res != "" {
-							return res
-						}
-						// no flipped or overlapping triangle: all UV triangles have the same strict orientation
-						// (square boundaries may legitimately flatten triangles whose three vertices lie on one side)
-						sign := 0.0
-						m.Iterate(func(t *model3d.Triangle) {
+								got, _ := uv.Load(c)
+								if !(got.Dist(sum) <= 1e-5) {
+									res = fmt.Sprintf("VIOLATION mean: interior vertex %v is at %v, the weighted mean of its neighbours is %v", c, got, sum)
+									return false
+								}
+								return true
+							})
 							if res != "" {
-								return
+								return res
 							}
-							a, _ := uv.Load(t[0])
-							b, _ := uv.Load(t[1])
-							c, _ := uv.Load(t[2])
-							ar := uvArea(a, b, c)
-							if math.Abs(ar) < 1e-12 {
-								if bi == 1 || bname == "PNorm1" { // straight sides: three boundary vertices on one side are collinear
+							// no flipped or overlapping triangle: all UV triangles have the same strict orientation
+							// (square boundaries may legitimately flatten triangles whose three vertices lie on one side)
+							sign := 0.0
+							m.Iterate(func(t *model3d.Triangle) {
+								if res != "" {
 									return
 								}
-								res = fmt.Sprintf("VIOLATION flip: triangle %v is mapped to a degenerate UV triangle", *t)
-								return
+								a, _ := uv.Load(t[0])
+								b, _ := uv.Load(t[1])
+								c, _ := uv.Load(t[2])
+								ar := uvArea(a, b, c)
+								if math.Abs(ar) < 1e-12 {
+									if bi == 1 || bname == "PNorm1" { // straight sides: three boundary vertices on one side are collinear
+										return
+									}
+									res = fmt.Sprintf("VIOLATION flip: triangle %v is mapped to a degenerate UV triangle", *t)
+									return
+								}
+								if sign == 0 {
+									sign = ar
+								} else if (ar > 0) != (sign > 0) {
+									res = fmt.Sprintf("VIOLATION flip: triangle %v is flipped in the parameterisation (signed areas %g vs %g)", *t, ar, sign)
+								}
+							})
+							if res != "" {
+								return res
 							}
-							if sign == 0 {
-								sign = ar
-							} else if (ar > 0) != (sign > 0) {
-								res = fmt.Sprintf("VIOLATION flip: triangle %v is flipped in the parameterisation (signed areas %g vs %g)", *t, ar, sign)
-							}
-						})
-						if res != "" {
-							return res
-						}
-						return "ok"
-					}})
+							return "ok"
+						}})
+				}
 			}
 		}
 	}
